@@ -139,3 +139,14 @@ Theorem params_mut_assign_refuted : exists k p, jwk_coherent k = true /\ jwk_coh
 Proof. exists (jwk_new KOkp), (POct 1013). split; reflexivity. Qed.
 Theorem params_mut_assign_same_family k p : j_kty k = params_kty p -> jwk_coherent (jwk_params_mut_assign k p) = true.
 Proof. unfold jwk_coherent, jwk_params_mut_assign, jwk_with_params. cbn. intros ->. destruct (params_kty p); reflexivity. Qed.
+
+(* conversion from the JSON-proof-token key type: a converted key is coherent whatever the foreign key declared, carries the
+   foreign key's private member, and the conversion never panics *)
+Theorem from_foreign_coherent f k : jwk_from_foreign false f = CvOk k ->
+  j_kty k = params_kty (j_params k) /\ (exists c x y d, f_params f = FEc c x y d /\ j_params k = PEc c x y d) /\ j_kid k = f_kid f.
+Proof. unfold jwk_from_foreign. destruct (f_x5u f) as [[[|] v]|]; try discriminate; destruct (f_params f) as [c x y d|c x d]; try discriminate;
+  intros H; injection H as <-; cbn; (split; [reflexivity|split; [exists c, x, y, d; split; reflexivity|reflexivity]]). Qed.
+Theorem from_foreign_total f : jwk_from_foreign false f <> CvPanic.
+Proof. unfold jwk_from_foreign. destruct (f_x5u f) as [[[|] v]|]; try discriminate; destruct (f_params f); discriminate. Qed.
+Theorem from_foreign_pinned_panics : exists f, jwk_from_foreign true f = CvPanic.
+Proof. exists {| f_declared := KOkp; f_params := FOkp 1 2 None; f_kid := None; f_x5u := None; f_x5c := None; f_x5t := None |}. reflexivity. Qed.
